@@ -267,7 +267,8 @@ let () = register "wmodel" (fun ic ->
            let st_i = Int64.to_int32 (wm_toki t 6) in
            let is_str = (st_i = 2l || st_i = 3l) in
            let spec = wm_gen_bytes (wm_tok t 7) is_str in
-           let stype = (match spec with None when is_str -> N0 | _ -> wm_tok_enum t 6) in   (* NULL string: rejected *)
+           let null_sized = (let sp = wm_tok t 7 in String.length sp > 1 && sp.[0] = 'n' && int_of_string (String.sub sp 1 (String.length sp - 1)) > 0) in
+           let stype = (match spec with None when is_str || null_sized -> N0 | _ -> wm_tok_enum t 6) in   (* NULL string / NULL with a size: rejected *)
            let data = (match spec with None -> [] | Some l -> if is_str then l @ [0] else l) in
            ignore (step (WAnno (wm_toku 16 t 1, { an_ts = wm_tokz t 2; an_y = wm_n_of_u64 (wm_mask 32 (wm_parse_hex (wm_tok t 3)));
                                                   an_type = wm_tok_enum t 4; an_group = wm_toku 8 t 5; an_stype = stype;
@@ -277,7 +278,8 @@ let () = register "wmodel" (fun ic ->
            let st_i = Int64.to_int32 (wm_toki t 2) in
            let is_str = (st_i = 2l || st_i = 3l) in
            let spec = wm_gen_bytes (wm_tok t 3) is_str in
-           let stype = (match spec with None when is_str -> wm_n_of_int 256 | _ -> wm_tok_enum t 2) in
+           let null_sized = (let sp = wm_tok t 3 in String.length sp > 1 && sp.[0] = 'n' && int_of_string (String.sub sp 1 (String.length sp - 1)) > 0) in
+           let stype = (match spec with None when is_str || null_sized -> wm_n_of_int 256 | _ -> wm_tok_enum t 2) in   (* NULL string / NULL with a size: rejected *)
            let data = (match spec with None -> [] | Some l -> if is_str then l @ [0] else l) in
            ignore (step (WUd { ud_meta = wm_toku 16 t 1; ud_stype = stype; ud_data = wm_nbytes data }))
          | "wflush" -> ignore (step WFlush)
